@@ -2,9 +2,9 @@
 (* C18 -- calendar operators, transcribed from the property statement and from the documented semantics of
    Python's datetime.date (proleptic Gregorian ordinal, 0001-01-01 = 1, Monday = weekday 0), ISO 8601 week
    dates and dateutil.relativedelta (add years and months first, clip the day to the end of the month, then
-   add days).  Nothing here is taken from beanquery's code except DateBinShipped, the named deviation that
-   states what the shipped mechanism does (used only by the non-vacuity configuration and to classify the
-   known finding).
+   add days).  Nothing here is taken from beanquery's code except DateBinWalk (the walk the code
+   performs, checked against the law by MC_Calendar_walk.cfg) and DateBinShipped (the walk before repair 5c4d63a,
+   the deliberately broken mechanism of the non-vacuity configuration; it also names a regression).
 
    A date is its ordinal.  An interval is a record [y, m, d] (years, months, days).                      *)
 EXTENDS Integers, Sequences, TLC
@@ -161,15 +161,23 @@ DateBin(iv, src, origin) ==
          IN IF cand <= src THEN cand ELSE Boundary(iv, origin, q - 1)
     ELSE origin + iv.d * ((src - origin) \div iv.d)
 
-\* the mechanism as shipped (query_env.date_bin): walk from the origin one stride at a time
-RECURSIVE WalkUp(_, _, _), WalkDown(_, _, _)
-WalkUp(prev, iv, src) == LET n == AddIval(prev, iv) IN IF n >= src THEN prev ELSE WalkUp(n, iv, src)
+\* the mechanism of the code (query_env.date_bin): walk from the origin one stride at a time; a boundary belongs to
+\* the bin it starts (strict comparison going up)
+RECURSIVE WalkUp(_, _, _), WalkDown(_, _, _), WalkUpGE(_, _, _)
+WalkUp(prev, iv, src) == LET n == AddIval(prev, iv) IN IF n > src THEN prev ELSE WalkUp(n, iv, src)
 WalkDown(cur, iv, src) == LET n == SubIval(cur, iv) IN IF n <= src THEN n ELSE WalkDown(n, iv, src)
-DateBinShipped(iv, src, origin) ==
+DateBinWalk(iv, src, origin) ==
   IF MonthStride(iv)
     THEN IF src >= origin THEN WalkUp(origin, iv, src) ELSE WalkDown(origin, iv, src)
     ELSE origin + iv.d * ((src - origin) \div iv.d)
-\* the named deviation: exactly on a bin boundary after the origin the shipped walk answers the previous bin
+\* the walk as it was before repair 5c4d63a (`n >= source`): kept as the deliberately broken mechanism of the
+\* non-vacuity configuration, and to give a regression to it its own key
+WalkUpGE(prev, iv, src) == LET n == AddIval(prev, iv) IN IF n >= src THEN prev ELSE WalkUpGE(n, iv, src)
+DateBinShipped(iv, src, origin) ==
+  IF MonthStride(iv)
+    THEN IF src >= origin THEN WalkUpGE(origin, iv, src) ELSE WalkDown(origin, iv, src)
+    ELSE origin + iv.d * ((src - origin) \div iv.d)
+\* the named deviation: exactly on a bin boundary after the origin the pre-repair walk answers the previous bin
 OnBoundaryAfterOrigin(iv, src, origin) ==
   MonthStride(iv) /\ src > origin /\ DateBin(iv, src, origin) = src
 PrevBin(iv, src, origin) == SubIval(src, iv)
